@@ -237,7 +237,16 @@ def extra_obligations(w, tier, seed):
                and ast.unparse(n.func.value) in ('deps', 'node.deps')]
     ok = len(hard) == 1 and isinstance(hard[0].op, ast.BitOr) and ast.unparse(hard[0].value) == 'deps' and not other and not removed
     definite_bad = (len(hard) == 1 and isinstance(hard[0].value, ast.BinOp) and isinstance(hard[0].value.op, ast.Sub)) or bool(removed)
-    return [dict(id='scan/_register_item/hard-deps-unfiltered', kind='shape', tag='property', paths=1, status='discharged' if ok else ('failed' if definite_bad else 'unknown'), backend='ast-scan', seconds=0.0,
+    # determinism of the SDL ordering: before sorting, sdl_to_ddl normalises every dependency set into an OrderedSet sorted by the FULL qualified name (a total order on
+    # names; a key that identifies less -- e.g. the local name -- leaves ties in hash order, which differs between processes)
+    fn2, _ = repo.find_def('edb/edgeql/declarative.py', 'sdl_to_ddl')
+    norm = [n for n in ast.walk(fn2) if isinstance(n, ast.Assign) and len(n.targets) == 1 and ast.unparse(n.targets[0]) in ('ddlentry.deps', 'ddlentry.weak_deps')]
+    okn = len(norm) == 2 and all(ast.unparse(n.value) in ('OrderedSet(sorted(deps))', 'OrderedSet(sorted(weak_deps))') for n in norm)
+    badn = [ast.unparse(n) for n in norm if isinstance(n.value, ast.Call) and any(isinstance(c, ast.Call) and ast.unparse(c.func) == 'sorted' and c.keywords for c in ast.walk(n.value))]
+    out_extra = [dict(id='scan/sdl_to_ddl/deps-normalised-by-full-name', kind='shape', tag='property', paths=1, status='discharged' if okn else ('failed' if badn else 'unknown'), backend='ast-scan', seconds=0.0,
+                      clause='declarative.sdl_to_ddl hands the sorter dependency sets ordered by sorted(<names>) with the default (full qualified name) ordering',
+                      model=None if okn else {'offending_source_location': badn or [ast.unparse(n) for n in norm]}, where='; '.join(ast.unparse(n) for n in norm), function='ast-scan')]
+    return out_extra + [dict(id='scan/_register_item/hard-deps-unfiltered', kind='shape', tag='property', paths=1, status='discharged' if ok else ('failed' if definite_bad else 'unknown'), backend='ast-scan', seconds=0.0,
                  clause='declarative._register_item stores the collected hard dependencies with `node.deps |= deps` (nothing subtracted, self-references included); only weak_deps exclude the declaration itself',
                  model=None if ok else {'offending_source_location': [ast.unparse(n) for n in hard] + removed}, where='; '.join(ast.unparse(n) for n in hard + weak), function='ast-scan')]
 
